@@ -112,6 +112,31 @@ pub fn exec(_label: &str, input: &str, out: &mut CaseOut) {
                 if base_rows.as_ref() != Some(&whole) {
                     out.fail("grid_ne_iterator", format!("from_str has {} rows, parse_grid_iterator yields {:?} rows   t={text:?}", whole.len(), base_rows.as_ref().map(|r| r.len())));
                 }
+                // the iterator's other ways of moving on - nth, skip, step_by, last - hand out the same rows as next()
+                if whole.len() >= 2 {
+                    let fresh = |f: &mut dyn FnMut(&mut dyn Iterator<Item = Result<Dict, std::io::Error>>) -> Vec<String>| -> Option<Vec<String>> {
+                        let mut rd = std::io::Cursor::new(bytes.as_slice());
+                        let mut p = Parser::make(&mut rd).ok()?;
+                        let mut it = parse_grid_iterator(&mut p).ok()?;
+                        Some(f(&mut it))
+                    };
+                    let show = |r: Option<Result<Dict, std::io::Error>>| match r {
+                        Some(Ok(d)) => vx::show(&Value::Dict(d)),
+                        Some(Err(_)) => "e".to_string(),
+                        None => "end".to_string(),
+                    };
+                    let k = 1 + whole.len() / 3;
+                    let nth = fresh(&mut |it| vec![show(it.nth(k)), show(it.next())]);
+                    let want_nth = vec![whole.get(k).cloned().unwrap_or("end".into()), whole.get(k + 1).cloned().unwrap_or("end".into())];
+                    if nth.as_ref() != Some(&want_nth) {
+                        out.fail("grid_ne_iterator", format!("nth({k}) then next() yield {nth:?}, rows {k} and {} of the grid are {want_nth:?}   t={text:?}", k + 1));
+                    }
+                    let skipped = fresh(&mut |it| it.skip(1).step_by(2).map(|r| show(Some(r))).collect());
+                    let want_skip: Vec<String> = whole.iter().skip(1).step_by(2).cloned().collect();
+                    if skipped.as_ref() != Some(&want_skip) {
+                        out.fail("grid_ne_iterator", format!("skip(1).step_by(2) yields {} rows, the grid has {} such rows   t={text:?}", skipped.as_ref().map_or(0, |v| v.len()), want_skip.len()));
+                    }
+                }
             }
             for (chunk, intr) in [(1usize, 0usize), (2, 3), (3, 2), (7, 0), (64, 5)] {
                 let mut rd = FaultyReader { data: &bytes, pos: 0, chunk, intr, fail_at: None, calls: 0, transient: false, failed_once: false };
